@@ -15,6 +15,7 @@ package main
 
 import (
 	"fmt"
+	"go/token"
 	"go/types"
 	"sort"
 	"strings"
@@ -40,7 +41,7 @@ func (ld *Loaded) accessesOf(tname, fname string) []fieldAccess {
 	sort.Strings(keys)
 	for _, k := range keys {
 		for _, fn := range ld.fnByKey[k] {
-			if fn.Pkg == nil || !strings.HasPrefix(fn.Pkg.Pkg.Path(), "github.com/go-netty/") {
+			if tp := typesPkgOf(fn); tp == nil || !strings.HasPrefix(tp.Path(), "github.com/go-netty/") {
 				continue
 			}
 			for _, b := range fn.Blocks {
@@ -111,7 +112,7 @@ func (ld *Loaded) protectScan(fd *FieldDecl) *FuncResult {
 	accs := ld.accessesOf(tname, fd.Field)
 	var bad []string
 	note := func(a fieldAccess, why string) {
-		bad = append(bad, fmt.Sprintf("%s in %s: %s", why, a.fn.RelString(a.fn.Pkg.Pkg), a.in))
+		bad = append(bad, fmt.Sprintf("%s in %s: %s", why, a.fn.RelString(typesPkgOf(a.fn)), a.in))
 	}
 	args := strings.Fields(fd.Arg)
 	switch fd.Kind {
@@ -204,6 +205,47 @@ func (ld *Loaded) protectScan(fd *FieldDecl) *FuncResult {
 				note(a, "read without a preceding receive from ctx.Done() (no happens-before with the store in Close)")
 			}
 		}
+	case "syncvalue":
+		// the field is a value of a type from package sync (Mutex, RWMutex, Map, Pool, ...): it is
+		// only ever the receiver of that type's methods
+		for _, a := range accs {
+			if !isSyncReceiver(a.in, a.fa) {
+				note(a, "sync value used other than as the receiver of its methods")
+			}
+		}
+	case "elemsync":
+		// a slice of sync values: the slice is only indexed (or measured), and each element address
+		// is only the receiver of the element type's methods - outside the constructors
+		for _, a := range accs {
+			if ctorOf(ld, fd, a.fn) {
+				continue
+			}
+			ld1, isLoad := a.in.(*ssa.UnOp)
+			if !isLoad || a.store || a.other {
+				note(a, "slice of sync values stored or its address taken")
+				continue
+			}
+			for _, r := range *ld1.Referrers() {
+				switch r := r.(type) {
+				case *ssa.DebugRef:
+				case *ssa.IndexAddr:
+					for _, rr := range *r.Referrers() {
+						if _, dbg := rr.(*ssa.DebugRef); dbg {
+							continue
+						}
+						if !isSyncReceiver(rr, r) {
+							note(a, "element used other than as the receiver of its methods: "+rr.String())
+						}
+					}
+				case *ssa.Call:
+					if b, ok := r.Call.Value.(*ssa.Builtin); !ok || (b.Name() != "len" && b.Name() != "cap") {
+						note(a, "slice of sync values passed on: "+r.String())
+					}
+				default:
+					note(a, "slice of sync values used by "+r.String())
+				}
+			}
+		}
 	case "unprotected":
 	}
 	sort.Strings(bad)
@@ -233,96 +275,364 @@ func ctorOf(ld *Loaded, fd *FieldDecl, fn *ssa.Function) bool {
 	return false
 }
 
-// lockHeldAt: "" | "r" | "w" - how the mutex field mu of the same object is held at the access.
-// Either the enclosing function locks it (dominating Lock, unlock deferred or later), or the access
-// sits in an anonymous function that is only ever passed to a declared lock wrapper.
-func (ld *Loaded) lockHeldAt(fd *FieldDecl, a fieldAccess, mu string) string {
-	best := ""
-	scan := func(fn *ssa.Function, at ssa.Instruction) string {
-		mode := ""
-		for _, b := range fn.Blocks {
-			for _, in := range b.Instrs {
-				c, ok := in.(*ssa.Call)
-				if !ok {
-					continue
+// lock dataflow ---------------------------------------------------------------------------
+
+// lockOp classifies a call as an operation on mutex field mu of the object `base` (an SSA value,
+// compared modulo loads of the same variable cell): +2 Lock, +1 RLock, -1 unlock, 0 none.
+func lockOp(in ssa.Instruction, mu string, base ssa.Value) int {
+	c, ok := in.(*ssa.Call)
+	if !ok {
+		return 0
+	}
+	sc := c.Call.StaticCallee()
+	if sc == nil || len(c.Call.Args) == 0 {
+		return 0
+	}
+	fa, ok := c.Call.Args[0].(*ssa.FieldAddr)
+	if !ok {
+		return 0
+	}
+	st, ok := deref(fa.X.Type()).Underlying().(*types.Struct)
+	if !ok || st.Field(fa.Field).Name() != mu || !sameBase(fa.X, base) {
+		return 0
+	}
+	switch fnKey(sc) {
+	case "(*sync.Mutex).Lock", "(*sync.RWMutex).Lock":
+		return 2
+	case "(*sync.RWMutex).RLock":
+		return 1
+	case "(*sync.Mutex).Unlock", "(*sync.RWMutex).Unlock", "(*sync.RWMutex).RUnlock":
+		return -1
+	}
+	return 0
+}
+
+// sameBase: two SSA values denote the same object: identical, or loads of the same variable cell
+// (an Alloc, parameter cell or free variable that is stored at most once).
+func sameBase(a, b ssa.Value) bool {
+	if a == b {
+		return true
+	}
+	ua, ok1 := a.(*ssa.UnOp)
+	ub, ok2 := b.(*ssa.UnOp)
+	if ok1 && ok2 && ua.Op == token.MUL && ub.Op == token.MUL && ua.X == ub.X {
+		return storedOnce(ua.X)
+	}
+	return false
+}
+
+func storedOnce(cell ssa.Value) bool {
+	refs := cell.Referrers()
+	if refs == nil {
+		return true
+	}
+	n := 0
+	for _, r := range *refs {
+		if st, ok := r.(*ssa.Store); ok && st.Addr == cell {
+			n++
+		}
+	}
+	return n <= 1
+}
+
+// lockStateAt runs a forward dataflow over fn (0 = not held, 1 = read-held, 2 = write-held; meet =
+// minimum over predecessors) and returns the state just before instruction at.
+func lockStateAt(fn *ssa.Function, at ssa.Instruction, mu string, base ssa.Value) int {
+	const top = 3
+	in := make([]int, len(fn.Blocks))
+	out := make([]int, len(fn.Blocks))
+	for i := range in {
+		in[i], out[i] = top, top
+	}
+	transfer := func(b *ssa.BasicBlock, s int, stop ssa.Instruction) (int, bool) {
+		for _, ins := range b.Instrs {
+			if ins == stop {
+				return s, true
+			}
+			switch lockOp(ins, mu, base) {
+			case 2:
+				s = 2
+			case 1:
+				if s < 1 {
+					s = 1
 				}
-				sc := c.Call.StaticCallee()
-				if sc == nil || len(c.Call.Args) == 0 {
-					continue
-				}
-				k := fnKey(sc)
-				if !strings.HasSuffix(describe(c.Call.Args[0]), "."+mu) {
-					continue
-				}
-				if at != nil && !dominatesInstr(in, at) {
-					continue
-				}
-				switch k {
-				case "(*sync.Mutex).Lock", "(*sync.RWMutex).Lock":
-					mode = "w"
-				case "(*sync.RWMutex).RLock":
-					if mode == "" {
-						mode = "r"
-					}
-				case "(*sync.Mutex).Unlock", "(*sync.RWMutex).Unlock", "(*sync.RWMutex).RUnlock":
-					mode = "" // released before the access
-				}
+			case -1:
+				s = 0
 			}
 		}
-		return mode
+		return s, false
 	}
-	if m := scan(a.fn, a.in); m != "" {
-		return m
+	for changed := true; changed; {
+		changed = false
+		for i, b := range fn.Blocks {
+			s := top
+			if i == 0 {
+				s = 0
+			}
+			for _, p := range b.Preds {
+				if out[p.Index] < s {
+					s = out[p.Index]
+				}
+			}
+			o := s
+			if s != top {
+				o, _ = transfer(b, s, nil)
+			}
+			if s != in[i] || o != out[i] {
+				in[i], out[i] = s, o
+				changed = true
+			}
+		}
 	}
-	// anonymous function passed only to lock wrappers
-	if a.fn.Parent() != nil {
-		parent := a.fn.Parent()
-		all := true
-		found := false
-		for _, b := range parent.Blocks {
-			for _, in := range b.Instrs {
-				mc, ok := in.(*ssa.MakeClosure)
-				if !ok || mc.Fn != a.fn {
+	b := at.Block()
+	if in[b.Index] == top {
+		return 0
+	}
+	s, _ := transfer(b, in[b.Index], at)
+	return s
+}
+
+// lockHeldAt: "" | "r" | "w" - how the mutex field mu of the SAME object is held at the access.
+// Either the enclosing function holds it on every path to the access, or the access sits in an
+// anonymous function that is only ever passed to a declared (and checked) lock wrapper whose
+// receiver is the object accessed.
+func (ld *Loaded) lockHeldAt(fd *FieldDecl, a fieldAccess, mu string) string {
+	modes := []string{"", "r", "w"}
+	if m := lockStateAt(a.fn, a.in, mu, a.fa.X); m > 0 {
+		return modes[m]
+	}
+	if a.fn.Parent() == nil {
+		return ""
+	}
+	// the base inside the closure must be a load of a free variable
+	ld1, ok := a.fa.X.(*ssa.UnOp)
+	if !ok {
+		return ""
+	}
+	fv, ok := ld1.X.(*ssa.FreeVar)
+	if !ok || !storedOnceFree(a.fn, fv) {
+		return ""
+	}
+	fvIdx := -1
+	for i, v := range a.fn.FreeVars {
+		if v == fv {
+			fvIdx = i
+		}
+	}
+	parent := a.fn.Parent()
+	best := 3
+	found := false
+	for _, b := range parent.Blocks {
+		for _, in := range b.Instrs {
+			mc, ok := in.(*ssa.MakeClosure)
+			if !ok || mc.Fn != a.fn {
+				continue
+			}
+			cell := mc.Bindings[fvIdx]
+			if !storedOnce(cell) {
+				return ""
+			}
+			refs := mc.Referrers()
+			if refs == nil {
+				return ""
+			}
+			for _, r := range *refs {
+				if _, isDbg := r.(*ssa.DebugRef); isDbg {
 					continue
 				}
-				refs := mc.Referrers()
-				if refs == nil {
-					all = false
-					continue
+				call, ok := r.(*ssa.Call)
+				if !ok || call.Call.StaticCallee() == nil || len(call.Call.Args) < 2 {
+					return ""
 				}
-				for _, r := range *refs {
-					if _, isDbg := r.(*ssa.DebugRef); isDbg {
-						continue
-					}
-					call, ok := r.(*ssa.Call)
-					if !ok || call.Call.StaticCallee() == nil {
-						all = false
-						continue
-					}
-					wk := fnKey(call.Call.StaticCallee())
-					w := ""
-					for _, lw := range ld.cs.Fields {
-						if lw.Kind == "lockwrapper" && qualifyFuncName(lw.Type, lw.Pkg) == wk {
-							f := strings.Fields(lw.Arg)
-							if len(f) == 2 && f[0] == mu {
-								w = f[1]
+				// receiver of the wrapper = the object whose field is accessed
+				recv, ok := call.Call.Args[0].(*ssa.UnOp)
+				if !ok || recv.X != cell {
+					return ""
+				}
+				wk := fnKey(call.Call.StaticCallee())
+				w := 0
+				for _, lw := range ld.cs.Fields {
+					if lw.Kind == "lockwrapper" && qualifyFuncName(lw.Type, lw.Pkg) == wk {
+						f := strings.Fields(lw.Arg)
+						if len(f) == 2 && f[0] == mu {
+							if f[1] == "w" {
+								w = 2
+							} else {
+								w = 1
 							}
 						}
 					}
-					if w == "" {
-						all = false
-						continue
-					}
-					found = true
-					if best == "" || w == "r" {
-						best = w
-					}
+				}
+				if w == 0 {
+					return ""
+				}
+				found = true
+				if w < best {
+					best = w
 				}
 			}
 		}
-		if found && all {
-			return best
-		}
+	}
+	if found {
+		return modes[best]
 	}
 	return ""
+}
+
+func storedOnceFree(fn *ssa.Function, fv *ssa.FreeVar) bool {
+	refs := fv.Referrers()
+	if refs == nil {
+		return true
+	}
+	for _, r := range *refs {
+		if st, ok := r.(*ssa.Store); ok && st.Addr == fv {
+			return false
+		}
+	}
+	return true
+}
+
+// lockWrapperScan checks a declared lock wrapper: its function parameter is only ever called, and
+// every call happens while the receiver's mutex is held in the declared mode.
+func (ld *Loaded) lockWrapperScan(lw *FieldDecl) *FuncResult {
+	key := qualifyFuncName(lw.Type, lw.Pkg)
+	clean := strings.NewReplacer("(*", "", ")", "").Replace(lw.Type)
+	o := &Obligation{Name: shortStem(lw.Pkg, clean) + "#protect:holds_lock", Kind: "protect", Static: true, Props: lw.Props}
+	f := strings.Fields(lw.Arg)
+	var bad []string
+	fns := ld.fnByKey[key]
+	if len(fns) == 0 || len(f) != 2 {
+		bad = append(bad, "function not found")
+	}
+	for _, fn := range fns {
+		if len(fn.Params) != 2 {
+			bad = append(bad, "expected (receiver, func) parameters")
+			continue
+		}
+		recv, fp := fn.Params[0], fn.Params[1]
+		want := 1
+		if f[1] == "w" {
+			want = 2
+		}
+		calls := 0
+		for _, r := range *fp.Referrers() {
+			switch r := r.(type) {
+			case *ssa.DebugRef:
+			case *ssa.Call:
+				if r.Call.Value != fp {
+					bad = append(bad, "function argument passed on: "+r.String())
+					continue
+				}
+				calls++
+				if got := lockStateAt(fn, r, f[0], recv); got < want {
+					bad = append(bad, fmt.Sprintf("callback invoked with lock state %d, declared %s", got, f[1]))
+				}
+			default:
+				bad = append(bad, "function argument escapes: "+r.String())
+			}
+		}
+		if calls == 0 {
+			bad = append(bad, "callback never called")
+		}
+	}
+	o.StaticOK = len(bad) == 0
+	o.Detail = fmt.Sprintf("%s calls its argument only while holding %s (%s)", lw.Type, f[0], f[1])
+	if len(bad) > 0 {
+		o.Detail += "; FAILS: " + strings.Join(bad, " | ")
+	}
+	return &FuncResult{Key: "static:" + o.Name, Obls: []*Obligation{o}}
+}
+
+// isSyncReceiver: instruction in uses addr only as the receiver of a method of package sync.
+func isSyncReceiver(in ssa.Instruction, addr ssa.Value) bool {
+	c, ok := in.(ssa.CallInstruction)
+	if !ok {
+		return false
+	}
+	cc := c.Common()
+	sc := cc.StaticCallee()
+	if sc == nil || sc.Pkg == nil || (sc.Pkg.Pkg.Path() != "sync" && sc.Pkg.Pkg.Path() != "sync/atomic") || len(cc.Args) == 0 || cc.Args[0] != addr {
+		return false
+	}
+	for _, a := range cc.Args[1:] {
+		if a == addr {
+			return false
+		}
+	}
+	return true
+}
+
+var protectKinds = map[string]bool{"atomic": true, "immutable": true, "guarded_by": true, "owned_by": true,
+	"published_by": true, "syncvalue": true, "unprotected": true}
+
+// coverageScan: every field of a struct that carries protection clauses for property id has one
+// (a field added later without a discipline is reported).
+func (ld *Loaded) coverageScans(id string) []*FuncResult {
+	type tk struct{ pkg, typ string }
+	seen := map[tk]map[string]bool{}
+	var order []tk
+	for _, fd := range ld.cs.Fields {
+		has := false
+		for _, p := range fd.Props {
+			if p == id {
+				has = true
+			}
+		}
+		if !has || !protectKinds[fd.Kind] || fd.Field == "*" {
+			continue
+		}
+		k := tk{fd.Pkg, fd.Type}
+		if seen[k] == nil {
+			seen[k] = map[string]bool{}
+			order = append(order, k)
+		}
+		seen[k][fd.Field] = true
+	}
+	var out []*FuncResult
+	for _, k := range order {
+		o := &Obligation{Name: shortStem(k.pkg, k.typ) + "#protect:coverage", Kind: "protect", Static: true, Props: []string{id}}
+		var missing []string
+		n := 0
+		for _, p := range ld.prog.AllPackages() {
+			if p.Pkg.Path() != k.pkg {
+				continue
+			}
+			obj := p.Pkg.Scope().Lookup(k.typ)
+			if obj == nil {
+				missing = append(missing, "type not found")
+				continue
+			}
+			st, ok := obj.Type().Underlying().(*types.Struct)
+			if !ok {
+				continue
+			}
+			for i := 0; i < st.NumFields(); i++ {
+				n++
+				if !seen[k][st.Field(i).Name()] {
+					missing = append(missing, st.Field(i).Name())
+				}
+			}
+		}
+		o.StaticOK = len(missing) == 0
+		o.Detail = fmt.Sprintf("all %d fields of %s carry a protection clause", n, k.typ)
+		if len(missing) > 0 {
+			o.Detail = fmt.Sprintf("fields of %s without a protection clause: %s", k.typ, strings.Join(missing, ", "))
+		}
+		out = append(out, &FuncResult{Key: "static:" + o.Name, Obls: []*Obligation{o}})
+	}
+	return out
+}
+
+// typesPkgOf: the package of a function, also for instantiations of generic functions and
+// anonymous functions inside them (whose Pkg is nil).
+func typesPkgOf(fn *ssa.Function) *types.Package {
+	for f := fn; f != nil; f = f.Parent() {
+		if f.Pkg != nil {
+			return f.Pkg.Pkg
+		}
+		if o := f.Origin(); o != nil && o.Pkg != nil {
+			return o.Pkg.Pkg
+		}
+	}
+	return nil
 }
